@@ -167,6 +167,12 @@ func r6paths(c *core.Ctx, fn *ssa.Function) {
 	c.Rule(R2, "NASEncode: NASEncrypt is executed exactly on the paths where the header type is 2 or 4")
 	c.Rule(R3, "NASEncode: without security context the plain encoding is returned and no counter/key is touched")
 	p := core.NewPather(fn)
+	// helpers of the same package are seen through: their counter operations and branches belong
+	// to the paths of this function (a step moved into a helper is still the same step)
+	p.InlineCalls = func(call *ssa.Call) bool {
+		callee := call.Call.StaticCallee()
+		return callee != nil && fnPkgPath(callee) == pTglib && callee.Name() != "EncodeNasPduWithSecurity"
+	}
 	if len(fn.Params) != 4 {
 		c.Fail(R1, "tglib.NASEncode:signature", fn.Pos(), "expected 4 parameters (ue, msg, securityContextAvailable, newSecurityContext)")
 		return
@@ -213,7 +219,7 @@ func r6paths(c *core.Ctx, fn *ssa.Function) {
 		}
 		return ""
 	}
-	paths, ok := core.EventPathsB(fn, ev, br, 1, 10000)
+	paths, ok := core.EventPathsS(fn, p, ev, br, 1, 10000)
 	if !ok {
 		c.Undecided("tglib.NASEncode has more than 10000 entry→return paths")
 	}
@@ -753,6 +759,47 @@ func r6writers(c *core.Ctx) {
 	c.Rule(R, "only tglib.NASEncode/NASDecode mutate a UE's ULCount/DLCount; only DerivateKamf/DerivateAlgKey write Kamf/KnasEnc/KnasInt")
 	allowedCount := map[string]bool{pTglib + ".NASEncode": true, pTglib + ".NASDecode": true}
 	allowedKey := map[string]bool{pTglib + ".RanUeContext.DerivateKamf": true, pTglib + ".RanUeContext.DerivateAlgKey": true}
+	// a helper that only NASEncode/NASDecode (or such a helper) call is part of them; likewise for
+	// the key derivation functions: close the allowed sets under "every static caller is allowed"
+	var all []*ssa.Function
+	for _, pp := range []string{pMain, pStg, pTglib, pBuild} {
+		all = append(all, allFuncsOf(c.P.SSAPkg(pp))...)
+	}
+	callers := map[string]map[string]bool{}
+	for _, f := range all {
+		for _, ci := range core.Calls(f) {
+			if g := ci.Common().StaticCallee(); g != nil {
+				gn := core.FuncName(g)
+				if callers[gn] == nil {
+					callers[gn] = map[string]bool{}
+				}
+				callers[gn][core.FuncName(f)] = true
+			}
+		}
+	}
+	closeUnder := func(allowed map[string]bool) {
+		for changed := true; changed; {
+			changed = false
+			for _, f := range all {
+				fnm := core.FuncName(f)
+				if allowed[fnm] || len(callers[fnm]) == 0 || (f.Object() != nil && f.Object().Exported()) {
+					continue
+				}
+				ok := true
+				for cl := range callers[fnm] {
+					if !allowed[cl] {
+						ok = false
+					}
+				}
+				if ok {
+					allowed[fnm] = true
+					changed = true
+				}
+			}
+		}
+	}
+	closeUnder(allowedCount)
+	closeUnder(allowedKey)
 	nf := 0
 	viol := 0
 	for _, pp := range []string{pMain, pStg, pTglib, pBuild} {
